@@ -77,7 +77,8 @@ def run(tier):
         nhist += len(hists)
         for repl in ("REDACTED", "Rr-x", "100%", "pct%d %s", "%.0s"):
             # the alphabet is concretised twice: as it is, and with longer / non-ASCII components
-            for amap in ({"a": "a", "b": "b"}, {"a": "userName", "b": "ü漢"}):
+            # (the third: two components that differ only in surrounding white space)
+            for amap in ({"a": "a", "b": "b"}, {"a": "userName", "b": "ü漢"}, {"a": "total", "b": " total "}):
                 conc = lambda s: "".join(amap.get(ch, ch) for ch in s)
                 H = [[conc(n) for n, _ in h] for h in hists]
                 if have_seq:
@@ -108,6 +109,9 @@ def run(tier):
     for L in (31, 32, 33, 63, 64, 65, 127, 128, 129, 254, 255, 256, 257, 300, 511, 512, 513, 1000, 1023, 1024, 1025, 4096, 5000):
         base = ("fieldName" * (L // 9 + 1))[:L - 1]
         names += [base + "a", base + "b", base, base + "ab"]
+    # names that differ only in leading / trailing white space are different names
+    for base in ("total", "n", "userName", "漢", ""):
+        names += [base + " ", " " + base, " " + base + " ", base + "\t", "\n" + base, base + "\u00a0", base + "  "]
     names = sorted(set(n for n in names if "." not in n and not n.startswith("$")))
     for repl in ("REDACTED",) if tier == "quick" else ("REDACTED", "X"):
         res = []
@@ -143,6 +147,9 @@ def run(tier):
                 v.violation("the pseudonym of a name differs between two processes / call orders", {"name": n, "first": first[n], "second": r_})
                 break
         comp = ["%s.%s" % (a, c) for a, c in zip(sub[:4000], sub[4000:8000])] + ["$" + a for a in sub[:2000]] + ["$$%s.$%s" % (a, c) for a, c in zip(sub[:500], sub[500:1000])]
+        # deep paths: every depth around the limits a "defensive" bound would pick (BSON nesting 100, 128, 256, 1000)
+        for depth in (2, 31, 32, 33, 63, 64, 65, 99, 100, 101, 102, 127, 128, 129, 150, 255, 256, 257, 500, 1000, 1001):
+            comp.append(".".join(sub[(7 * depth + i) % len(sub)] for i in range(depth)))
         cres = common.run_inproc(b, [{"op": "hashname", "args": {"replacement": repl, "names": comp}}])[0]["result"]
         for n, r_ in zip(comp, cres):
             v.count()
